@@ -3,7 +3,7 @@ import SleapVerif.Model.Oks
 /-! Driver for C15 (one op per line → one output line).
 
 * `oks <coco> <eps> <sds:list rat> <gts:list (scale:orat, pts:list (orat orat))> <prs:list (pts)>`
-    → `<asis:ok|raise> <n_gt> <n_pr> v…` row-major, the generic model run at `Float` with `Float.exp`
+    → `ok <n_gt> <n_pr> v…` row-major, the generic model run at `Float` with `Float.exp`
       (`nan` = NaN), values as IEEE bit patterns
 * `oksr …` (same arguments) → the same matrix with everything up to the argument of `exp` computed exactly at `Rat`
 * `area <pts>` → exact `Rat` bbox area or `nan`
@@ -39,9 +39,7 @@ def handle (line : String) : String :=
     | some (coco, eps, sds, gts, prs) =>
       let m := oksMatrix (R := Float) Float.exp coco (toF eps) (sds.map toF)
         (gts.map (fun g => (g.1.map toF, g.2.map ptF))) (prs.map (·.map ptF))
-      let asis := match oksMatrixAsIs (R := Rat) (fun _ => 0) coco eps sds gts prs with
-        | none => "raise" | some _ => "ok"
-      s!"{asis} {gts.length} {prs.length} " ++ " ".intercalate (m.flatten.map ofloatStr)
+      s!"ok {gts.length} {prs.length} " ++ " ".intercalate (m.flatten.map ofloatStr)
     | none => "bad-op"
   | "oksr" :: rest =>
     -- the exact part at `Rat` (squared distances, bbox area, normalisation, the argument of exp),
@@ -53,15 +51,7 @@ def handle (line : String) : String :=
         pure (coco, eps, sds, gts, prs)) rest with
     | some (coco, eps, sds, gts, prs) =>
       let cell (g : Option Rat × List (Pt Rat)) (p : List (Pt Rat)) : Option Float :=
-        match scaleOf g.1 g.2 with
-        | none => none
-        | some s =>
-          let nodes := mkNodes sds g.2 p
-          if nVis nodes = 0 then none
-          else
-            let ksF : List Float := nodes.map (fun n => match ksArg coco eps s n with
-              | some x => Float.exp (toF x) | none => 0)
-            some (sumR ksF / Float.ofNat (nVis nodes))
+        oksPairMixed (R := Float) (Q := Rat) toF Float.exp coco eps sds g.1 g.2 p
       s!"ok {gts.length} {prs.length} " ++
         " ".intercalate ((gts.map (fun g => prs.map (cell g))).flatten.map ofloatStr)
     | none => "bad-op"
@@ -89,8 +79,7 @@ def handle (line : String) : String :=
       let mat : List (List (Option Rat)) := (List.range n).map (fun i => (flat.drop (i * m)).take m)
       let oks := lookup mat
       let sc : Nat → Rat := fun j => scores.getD j 0
-      let asis := match matchInstancesAsIs oks sc thr (List.range n) (List.range m) with
-        | none => "raise" | some _ => "ok"
+      let asis := "ok"   -- HEAD's `match_instances` is total (the pre-6b9ee84 raise is a regression record only)
       let r := matchInstances oks sc thr (List.range n) (List.range m)
       s!"{asis} | {r.1.length} " ++ " ".intercalate (r.1.map (fun (g, p, v) => s!"{g} {p} {ratStr v}"))
         ++ s!" | {r.2.length} " ++ natsStr r.2
